@@ -1,6 +1,7 @@
 """Builtins, library models, comprehensions and numeric folds."""
 import ast
 import z3
+from .folds import ssimp
 from .values import *
 from .core import Path
 from .expr import PathAbort, VBoundStr, VBoundColl
@@ -26,6 +27,8 @@ class BuiltinMixin:
         guard = z3.And(0 <= i, i < n)
         sub = path.fork(guard)
         el = self.at(src, i, sub)
+        if getattr(src, 'elems_nonnull', False) and isinstance(el, VRef):
+            sub.assume(el.t != self.ctx.sorts.null(el.cls))
         return i, n, guard, sub, el
 
     def bind_target(self, target, val, path):
@@ -76,6 +79,11 @@ class BuiltinMixin:
         g = gens[k]
         src = self.ev(g.iter, path)
         src = self.iterable(src, path)
+        if (k == len(gens) - 1 and not g.ifs and isinstance(g.target, ast.Name) and isinstance(elt, ast.Name)
+                and elt.id == g.target.id and isinstance(src, (VSeq, VHeapList))):
+            # [x for x in xs] is xs itself
+            t, ek = self.to_seq(src, path)
+            return VSeq(t, ek)
         if self.is_concrete_iter(src):
             pieces = []
             for item in self.concrete_items(src):
@@ -87,7 +95,7 @@ class BuiltinMixin:
                     cond = z3.And(cond, t)
                     p = p.fork(t)
                     p.env = path.env
-                cond = z3.simplify(cond)
+                cond = ssimp(cond)
                 if z3.is_false(cond):
                     continue
                 inner = self.comp_rec(elt, gens, k + 1, p)
@@ -112,7 +120,7 @@ class BuiltinMixin:
         finally:
             self.ctx.generic_depth -= 1
         t_inner, ek = self.to_seq(inner, p)
-        cond = z3.simplify(cond)
+        cond = ssimp(cond)
         srt = z3.SeqSort(self.ctx.sorts.sort_of(ek))
         step = t_inner if z3.is_true(cond) else z3.If(cond, t_inner, z3.Empty(srt))
         res = VSeq(self.seq_fold(step, ek, i, n), ek)
@@ -185,7 +193,7 @@ class BuiltinMixin:
                     q.env = p.env
                     p = q
                 inner = self.gen_num_rec(kind, elt, gens, k + 1, p)
-                cond = z3.simplify(cond)
+                cond = ssimp(cond)
                 term = inner if z3.is_true(cond) else z3.If(cond, inner, neutral)
                 acc = term if acc is None else (acc + term if kind == 'sum' else acc * term)
             return acc if acc is not None else z3.IntVal(neutral)
@@ -205,7 +213,7 @@ class BuiltinMixin:
             inner = self.gen_num_rec(kind, elt, gens, k + 1, p)
         finally:
             self.ctx.generic_depth -= 1
-        cond = z3.simplify(cond)
+        cond = ssimp(cond)
         neutral_t = z3.IntVal(neutral) if inner.sort() == z3.IntSort() else z3.RealVal(neutral)
         step = inner if z3.is_true(cond) else z3.If(cond, inner, neutral_t)
         return self.num_fold(kind, step, i, n)
@@ -295,7 +303,7 @@ class BuiltinMixin:
         for cond, items in reversed(pr.branches):
             step = z3.If(cond, comb(items), step)
         n = self.length(pr.src, path)
-        body = self.num_fold(kind, z3.simplify(step), pr.idx, n)
+        body = self.num_fold(kind, ssimp(step), pr.idx, n)
         if pr.prefix is not None:
             pre = self.seq_numeric(kind, pr.prefix, path)
             body = pre + body if kind == 'sum' else pre * body
@@ -385,7 +393,7 @@ class BuiltinMixin:
                 ctx.generic_depth -= 1
                 path.env = saved
             vt = val.t if isinstance(val, VReal) else self.coerce(val, INT).t
-            return self.minmax_spec(name, z3.simplify(cond), vt, i, n, path, ln, default)
+            return self.minmax_spec(name, ssimp(cond), vt, i, n, path, ln, default)
         v = self.ev(argnode, path)
         return self.minmax_val(name, v, path, ln, default)
 
@@ -470,7 +478,7 @@ class BuiltinMixin:
                     q = p.fork(t)
                     q.env = p.env
                     p = q
-                res = self.merge(z3.simplify(cond), self.ev(gen.elt, p), res)
+                res = self.merge(ssimp(cond), self.ev(gen.elt, p), res)
             path.env = saved
             return res
         i, n, guard, sub, el = self.generic_iter(src, path)
@@ -490,7 +498,7 @@ class BuiltinMixin:
         finally:
             ctx.generic_depth -= 1
             path.env = saved
-        cond = z3.simplify(cond)
+        cond = ssimp(cond)
         k = ctx.fresh('first', z3.IntSort())
         if ctx.generic_depth > 0:
             raise OutOfReach('next() under a generic index')
